@@ -266,7 +266,7 @@ def minimise(viol, workdir, limit=24):
       todo.append((k, small))
   if not todo:
     return viol
-  files = fnspec.run_cases(WORKER, [s for _k, s in todo], workdir, nshards=min(8, len(todo)), tag="min")
+  files = run_engine([s for _k, s in todo], workdir, tag="min", nshards=min(8, len(todo)))
   small_viol, _n, _w = judge(files, workdir)
   by_inp = {}
   for sv in small_viol:
@@ -347,6 +347,37 @@ def _selftest(files, viol, workdir):
                                % (k, clause, TRACE, sorted(got.get(k + 1, []))))
 
 
+def run_engine(items, workdir, tag="cases", nshards=None):
+  """Run the worker over `items`, balanced over shards; the steps of one random document stay in one
+  shard (a worker builds each distinct document once), the enumerated documents are spread."""
+  import corpus
+  nshards = max(1, min(nshards or PAR, len(items)))
+  groups = {}
+  for it in items:
+    groups.setdefault(json.dumps(it["sch"], sort_keys=True), []).append(it)
+  units = []
+  for g in groups.values():
+    if len(g) > 12:
+      units.extend([x] for x in g)
+    else:
+      units.append(g)
+  cost = lambda u: sum(10 + len(x["sch"]["cols"]) for x in u)   # noqa: E731
+  bins = [[0, []] for _ in range(nshards)]
+  for u in sorted(units, key=cost, reverse=True):
+    b = min(bins, key=lambda x: x[0])
+    b[0] += cost(u)
+    b[1].extend(u)
+  args = []
+  for i, (_c, its) in enumerate(bins):
+    if not its:
+      continue
+    inp = os.path.join(workdir, "%s-in-%02d.json" % (tag, i))
+    json.dump(its, open(inp, "w"))
+    args.append({"inp": inp, "out": os.path.join(workdir, "%s-%02d.json" % (tag, i)), "shard": i})
+  corpus.run_workers(WORKER, args, parallel=PAR)
+  return [a["out"] for a in args]
+
+
 def _items(space):
   return [{"sch": space["docs"][x["doc"] - 1], "target": x["target"], "path": x["path"], "req": x["req"]}
           for x in space["inputs"]]
@@ -361,9 +392,8 @@ def run(ctx):
           % (len(items), nform, model["distinct"], model.get("wall", 0)))
   extra = random_inputs(ctx.seed, 30 if ctx.quick else 480)
   todo = items + extra
-  random.Random(16).shuffle(todo)
   t0 = time.time()
-  files = fnspec.run_cases(WORKER, todo, ctx.workdir, nshards=PAR)
+  files = run_engine(todo, ctx.workdir)
   ctx.log("the real engine ran %d rename steps in %.1fs" % (len(todo), time.time() - t0))
   viol, n, wall = judge(files, ctx.workdir)
   ctx.log("TLC judged %d recorded steps in %.1fs" % (n, wall))
@@ -437,7 +467,7 @@ def _stats(files):
 
 
 def replay(ctx, data):
-  files = fnspec.run_cases(WORKER, [data["case"]["inp"]], ctx.workdir)
+  files = run_engine([data["case"]["inp"]], ctx.workdir)
   viol, _n, _ = judge(files, ctx.workdir)
   return {"violations": viol}
 
